@@ -157,6 +157,14 @@ def _backend_worker(args):
                     fails.append(("crypto_scalarmult/%s/n=%s/p=%s" % (tag, s.hex(), p.hex()), "shared point is zero but the call returned %d" % r))
             elif r != 0 or q.raw != want:
                 fails.append(("crypto_scalarmult/%s/n=%s/p=%s" % (tag, s.hex(), p.hex()), "ret %d got %s want %s" % (r, q.raw.hex(), want.hex())))
+            # the same call with the result written over the point / over the scalar (callers replace the peer key by the shared secret)
+            if (i + j) % 3 == 0 and want != bytes(32):
+                for form in ("q==p", "q==n"):
+                    ctypes.memmove(q, p if form == "q==p" else s, 32)
+                    r = lib.crypto_scalarmult(q, s, q) if form == "q==p" else lib.crypto_scalarmult(q, q, p)
+                    n += 1
+                    if r != 0 or q.raw != want:
+                        fails.append(("crypto_scalarmult/%s/%s/n=%s/p=%s" % (form, tag, s.hex(), p.hex()), "ret %d got %s want %s" % (r, q.raw.hex(), want.hex())))
         # base point
         r = lib.crypto_scalarmult_base(q, s)
         import ec25519 as ec
